@@ -303,9 +303,10 @@ func Run(c *hx.Ctx) {
 				w.checkStored(hdr)
 			}
 		case "p2pboot":
-			// the first header of the P2P header store of a node without a trusted hash: what a peer answers for the
-			// initial height goes through the exchange session's New + UnmarshalBinary + Validate and then through the
-			// service's own init path (initStoreAndStartSyncer -> the REAL go-header store's Init)
+			// the first header of the P2P header store of a node without a trusted hash: what a peer answers to
+			// Exchange.GetByHeight(initial height). go-header only DECODES that answer (New + UnmarshalBinary; Validate() is
+			// called for gossip and exchange sessions only), so the decoded, UNVALIDATED item goes to the service's own init
+			// path (initStoreAndStartSyncer -> Validate, genesis-proposer check, the REAL go-header store's Init)
 			b := o.Bytes("blob")
 			w.note(b)
 			verdict := "panic"
@@ -313,31 +314,32 @@ func Run(c *hx.Ctx) {
 			func() {
 				defer func() {
 					if r := recover(); r != nil {
-						c.Report("C03/panic/p2p-library-entry", fmt.Sprint(r))
+						c.Report("C03/panic/p2p-store-init", fmt.Sprint(r))
 					}
 				}()
-				hdr, verdict = libAdmit[*types.SignedHeader](nil, false, b)
-				if verdict != "accepted" {
-					return
-				}
-				stored, err := evsync.VerifBootstrap[*types.SignedHeader](context.Background(), dssync.MutexWrap(ds.NewMapDatastore()), w.env.Gen, hdr)
-				switch {
-				case stored && err == nil:
-					verdict = "stored"
-				case !stored && err != nil:
-					verdict = "rejected:genesis"
-				default:
-					verdict = fmt.Sprintf("inconsistent stored=%v err=%v", stored, err)
-				}
+				verdict, hdr = bootstrap[*types.SignedHeader](w, b)
 			}()
 			c.Emit("p2pboot %s", verdict)
 			if verdict == "stored" {
 				if string(hdr.ProposerAddress) != string(w.env.Gen.ProposerAddress) {
 					c.Report("C03/p2p-store/seeded-with-header-of-foreign-proposer", fmt.Sprintf("height %d hash %s", hdr.Height(), short(hdr.Hash())))
-				} else {
-					w.checkStored(hdr)
+				} else if kind := w.storedKind(hdr); kind != "" {
+					c.Report("C03/p2p-store/seeded-with-unvalidated-header/"+kind, fmt.Sprintf("height %d hash %s names the proposer but is not signed with the proposer's key", hdr.Height(), short(hdr.Hash())))
 				}
 			}
+		case "p2pbootdat":
+			// the same init path for the first item of the P2P DATA store
+			b := o.Bytes("blob")
+			verdict := "panic"
+			func() {
+				defer func() {
+					if r := recover(); r != nil {
+						c.Report("C03/panic/p2p-store-init-data", fmt.Sprint(r))
+					}
+				}()
+				verdict, _ = bootstrap[*types.Data](w, b)
+			}()
+			c.Emit("p2pbootdat %s", verdict)
 		case "p2plibdat":
 			// a data item received over gossip / in an exchange session of the data sync service
 			b := o.Bytes("blob")
@@ -509,35 +511,57 @@ func libAdmit[H goheader.Header[H]](trusted H, hasTrusted bool, data []byte) (H,
 	return hdr, "accepted"
 }
 
+// bootstrap: decode as Exchange.Get/GetByHeight does (no Validate) and run the service's own init path through the hook
+func bootstrap[H goheader.Header[H]](w *World, data []byte) (string, H) {
+	hdr := goheader.New[H]()
+	if err := hdr.UnmarshalBinary(data); err != nil {
+		return "rejected:decode", hdr
+	}
+	stored, err := evsync.VerifBootstrap[H](context.Background(), dssync.MutexWrap(ds.NewMapDatastore()), w.env.Gen, hdr)
+	switch {
+	case err == nil: // (an item of height 0 is written by Init as well, the store's Height() then stays 0)
+		return "stored", hdr
+	case !stored && err != nil && strings.Contains(err.Error(), "is invalid"):
+		return "rejected:validate", hdr
+	case !stored && err != nil && strings.Contains(err.Error(), "genesis proposer"):
+		return "rejected:genesis", hdr
+	}
+	return fmt.Sprintf("inconsistent stored=%v err=%v", stored, err), hdr
+}
+
 // checkStored (C03): a header the P2P library entry accepts, and that names the genesis proposer, must be signed with
 // the proposer's key (harness's own key comparison + the real ed25519 verification; the code under test is not asked).
 func (w *World) checkStored(sh *types.SignedHeader) {
 	if string(sh.ProposerAddress) != string(w.env.Gen.ProposerAddress) {
 		return // a header of another chain/proposer: nothing ties it to this genesis (no trusted header was given)
 	}
+	if kind := w.storedKind(sh); kind != "" {
+		w.c.Report("C03/p2p-store/accepted-without-proposer-signature/"+kind, fmt.Sprintf("height %d hash %s", sh.Height(), short(sh.Hash())))
+	}
+}
+
+// storedKind: "" if the header carries the proposer's key and a signature the real ed25519 verifies; else why not
+func (w *World) storedKind(sh *types.SignedHeader) string {
 	pub := w.env.Pub
-	kind := ""
 	switch {
 	case sh.Signer.PubKey == nil:
-		kind = "key-absent"
 		if len(sh.Signature) == 0 {
-			kind = "unsigned"
+			return "unsigned"
 		}
+		return "key-absent"
 	case !sh.Signer.PubKey.Equals(pub):
-		kind = "foreign-key"
+		return "foreign-key"
 	case len(sh.Signature) == 0:
-		kind = "unsigned"
+		return "unsigned"
 	case bm.SigClass(pub, &sh.Header, sh.Signature) != "valid":
-		kind = "garbage-signature"
 		if !w.genuine[strings.ToLower(sh.Hash().String())] {
-			kind = "mutated"
+			return "mutated"
 		}
+		return "garbage-signature"
 	}
 	// (a header carrying the proposer's key and a valid signature but a wrong signer-address FIELD is signed by the
 	// proposer: the repaired code rejects it, the property does not demand that)
-	if kind != "" {
-		w.c.Report("C03/p2p-store/accepted-without-proposer-signature/"+kind, fmt.Sprintf("height %d hash %s", sh.Height(), short(sh.Hash())))
-	}
+	return ""
 }
 
 // panicClass names the kind of blob that made a handler panic, so that a different crash is a different finding.
